@@ -361,7 +361,12 @@ def fix_exist_types(spec):
     return spec
 
 # ------------------------------------------------------------------ payload for the driver
-def jtxt(x): return json.dumps(x, sort_keys=True, separators=(',', ':'))
+def _tagged_keys(x):
+    """keys that are not strings are made visible (and sortable): {1: 'a'} and {'1': 'a'} are different contents"""
+    if isinstance(x, dict): return {(k if isinstance(k, str) else f'<{type(k).__name__}>{k!r}'): _tagged_keys(v) for k, v in x.items()}
+    if isinstance(x, (list, tuple)): return [_tagged_keys(v) for v in x]
+    return x
+def jtxt(x): return json.dumps(_tagged_keys(x), sort_keys=True, separators=(',', ':'))
 
 def lang_payload(spec):
     assets = []
